@@ -91,12 +91,13 @@ Reset == /\ Ev("reset") /\ l' = l + 1
          /\ apc' = [r \in Inst |-> "none"] /\ finished' = [r \in Inst |-> FALSE]
          /\ clpc' = "init" /\ kpc' = [i \in IncIds |-> "none"]
          /\ fromPeer' = <<>> /\ sentCalls' = {} /\ responded' = {} /\ peerGone' = FALSE
-         /\ wbroken' = FALSE /\ bogus' = 0
+         /\ wbroken' = FALSE /\ bogus' = 0 /\ wslot' = FreeSlot
 
 \* silent steps: everything the hooks cannot see
 Silent == /\ UNCHANGED l
-          /\ \/ \E i \in Calls : (CWrite(i) /\ sentCalls' = sentCalls) \/ CCtxCancel(i)
-             \/ \E j \in Notifs : NWrite(j) /\ npc'[j] = "werr"
+          /\ \/ \E i \in Calls : (CWrite(i) /\ sentCalls' = sentCalls) \/ CCtxCancel(i) \/ CWAcq(i)
+             \/ \E j \in Notifs : (NWrite(j) /\ npc'[j] = "werr") \/ NWAcq(j)
+             \/ RPRWAcq \/ HPRWAcq \/ (\E r \in Inst : APRWAcq(r))
              \/ RRead \/ RReadErr
              \/ (RPRWrite /\ responses' = responses) \/ (HPRWrite /\ responses' = responses)
              \/ \E r \in Inst : APRWrite(r) /\ responses' = responses
